@@ -5,12 +5,21 @@ package main
 import "gonum.org/v1/gonum/internal/verif/vlib"
 
 func main() {
-	vlib.Main("C11",
-		vlib.Group{Name: "uv-identities", Gen: genUV},
-		vlib.Group{Name: "mathext", Gen: genMathext},
-		vlib.Group{Name: "rand-alphabet", Gen: genAlphabet},
-		vlib.Group{Name: "uv-rand", Gen: genUVRand},
-		vlib.Group{Name: "mv", Gen: genMV},
-		vlib.Group{Name: "samplers", Gen: genSamplers},
-	)
+	groups := []vlib.Group{
+		{Name: "uv-fit", Gen: genUVFit},
+		{Name: "mv", Gen: genMV},
+		{Name: "samplers", Gen: genSamplers},
+	}
+	if !noasmBuild {
+		// Only the three groups above reach code with assembly kernels (floats.Sum in
+		// stat.Mean/SuffStat, BLAS in mat for distmv/distmat/samplemv); the others are scalar
+		// code and identical in the noasm configuration.
+		groups = append([]vlib.Group{
+			{Name: "uv-identities", Gen: genUV},
+			{Name: "mathext", Gen: genMathext},
+			{Name: "rand-alphabet", Gen: genAlphabet},
+			{Name: "uv-rand", Gen: genUVRand},
+		}, groups...)
+	}
+	vlib.Main("C11", groups...)
 }
